@@ -276,6 +276,23 @@ class C09(Property):
             ver = 'etVersion' if kind == 'relation' else 'version'
             c[ver] = c[ver] + rng.choice([0, 1])
             yield {'kind': kind, 'defs': [a, b, c]}
+        import zlib
+        for i in range(8 if tier == 'quick' else 60):
+            # history: an event type that was compared becomes timeful (gains its first datetime property) or timeless (loses
+            # it) through the mapping interface of the event type (et[name] = EventProperty(...), del et[name]); it must then
+            # compare like a freshly built definition
+            a = G.base_of('eventtype')
+            dt = G.base_prop('when', 'o.dt')
+            dt['optional'] = True
+            b = json.loads(json.dumps(a))
+            b['props'].append(dt)
+            b['version'] = a['version'] + rng.choice([0, 1])
+            if i % 2:
+                a, b = b, a
+                b['version'] = a['version'] + rng.choice([0, 1])
+            while zlib.crc32(json.dumps(b, sort_keys=True).encode()) % 2 != 1:
+                b['free']['description'] += '.'
+            yield {'kind': 'eventtype', 'defs': [b, b, a], 'mutated_from': a}
         for kind in G.KINDS:
             for i in range(n if kind != 'eventtype' else 2 * n):
                 a = G.base_of(kind)
@@ -319,6 +336,15 @@ class C09(Property):
             apply_op('eq', e, fresh)
             apply_op('lt', fresh, e)
             G.xml_of(e)
+            # ... and was looked at through its read-only getters (whatever they memoise has to follow the changes below)
+            for getter in ('is_timeless', 'get_hashed_properties', 'get_properties', 'get_property_relations', 'get_attachments',
+                           'get_version_property_name', 'get_timespan_property_name_start', 'get_unique_properties',
+                           'get_mandatory_property_names', 'get_singular_property_names'):
+                if hasattr(e, getter):
+                    try:
+                        getattr(e, getter)()
+                    except Exception:
+                        pass
             try:
                 o.validate()
             except Exception:
@@ -443,6 +469,13 @@ class C09(Property):
                     return 'pair (%d,%d) is not antisymmetric: %r vs %r' % (i, j, a, b)
                 if a['eq'] and not obs['same_xml'][i][j]:
                     return 'definitions %d and %d compare equal but serialize differently' % (i, j)
+        if case.get('mutated_from') is not None and n >= 2 and case['defs'][0] == case['defs'][1]:
+            # definition 0 reached its state through the public mutators, definition 1 was built that way: equal definitions
+            # are interchangeable in every comparison
+            for j in range(n):
+                if ops[0][j] != ops[1][j] or ops[j][0] != ops[j][1]:
+                    return ('a definition that was read, compared and then changed through the public interface compares differently '
+                            'than a freshly built definition of the same content (against definition %d): %r vs %r' % (j, ops[0][j], ops[1][j]))
         for i in range(n):
             for j in range(n):
                 for k in range(n):
